@@ -178,7 +178,8 @@ def obs_seq(s, new=False, with_features=True):
     )
     sid, ps, pe, strand = s.parent_coordinates()
     if len(s):
-        o["coords"] = [sid, int(ps), int(pe), int(strand)]
+        o["seqid"] = sid  # identity of the parent the coordinates refer to
+        o["coords"] = [int(ps), int(pe), int(strand)]
         o["annotation_offset"] = int(s.annotation_offset)
     # an empty sequence denotes no residues (and `_zero_slice` forgets even the seqid): no coordinates observed
     if with_features:
